@@ -1037,7 +1037,7 @@ def gen_history(rng, i):
             base['blocks'][-1]['ev']['z'] = gen_event(rng, 1)
     kind = HIST_OPS[i % len(HIST_OPS)]
     ops = []
-    fac = rng.choice(['-1', '2', '0.5', '-0.25', '3', '-2'])
+    fac = rng.choice(['-1', '2', '0.5', '-0.25', '3', '-2', '0'])
     for k in kind.split('+'):
         if k == 'mod_all':
             ops += [['mod', ax, fac] for ax in AX]
@@ -1145,6 +1145,55 @@ def run_history(ctx, h):
     ctx.count('stream.hist')
 
 
+# ------------------------------------------------------------------------------------------------
+# zero-amplitude gradient events (trapezoid with amplitude exactly 0, all-zero raster shape, all-zero extended
+# trapezoid): they are gradient events like any other, so the prediction still has one value per raster interval up to
+# the end of the last of them (sample-count theorem), and they contribute exactly 0
+def zero_event(e):
+    e = dict(e)
+    if e['k'] == 'trap':
+        e['amp'] = '0'
+    elif e['k'] == 'ext':
+        e['a'] = ['0'] * len(e['a'])
+    else:
+        e['w'] = ['0'] * len(e['w'])
+    return e
+
+
+def zero_case(rng, i):
+    c = gen_plain(rng, 'zero')
+    durs = block_durs(c)
+    spans = []                                   # (start, end, block index, channel)
+    t0 = 0
+    for bi, (b, d) in enumerate(zip(c['blocks'], durs)):
+        for ch, e in b['ev'].items():
+            st = t0 + (e['delay'] if e['k'] != 'ext' else e['t'][0])
+            spans.append((st, t0 + ev_dur(e), bi, ch))
+        t0 += d
+    mode = ['last', 'first', 'axis', 'append', 'all', 'last', 'append'][i % 7]
+    if mode == 'last':
+        end = max(s[1] for s in spans)
+        pick = [s for s in spans if s[1] == end]
+    elif mode == 'first':
+        st = min(s[0] for s in spans)
+        pick = [s for s in spans if s[0] == st]
+    elif mode == 'axis':
+        ax = rng.choice(sorted({s[3] for s in spans}))
+        pick = [s for s in spans if s[3] == ax]
+    elif mode == 'all':
+        pick = spans
+    else:
+        pick = []
+        e = gen_event(rng, 1)
+        while e['k'] == 'ext' and rng.random() < 0.5:
+            e = gen_event(rng, 1)
+        c['blocks'].append({'delay': rng.choice([0, 0, 3]), 'ev': {rng.choice(AX): zero_event(e)}})
+    for _, _, bi, ch in pick:
+        c['blocks'][bi]['ev'][ch] = zero_event(c['blocks'][bi]['ev'][ch])
+    c['zero_mode'] = mode
+    return c
+
+
 def file_case(rng, i):
     c = gen_case(rng, True, 'file')
     c['raster_us'] = [20, 5][i % 2]
@@ -1188,6 +1237,12 @@ def run(ctx):
     for i in range({'quick': 8, 'thorough': 200}[ctx.tier]):
         c = file_case(rng_f, i)
         one_case(ctx, c, False, 1)
+    # zero-amplitude gradient events at the end / start / alone on an axis / everywhere
+    rng_z = ctx.rng('zero')
+    for i in range({'quick': 14, 'thorough': 300}[ctx.tier]):
+        c = zero_case(rng_z, i)
+        ctx.count('zero.' + c['zero_mode'])
+        one_case(ctx, c, i % 7 in (0, 3), 1)
     # histories on one Sequence object (cache filled, sequence changed through the API, predicted again)
     rng_hist = ctx.rng('history')
     for i in range({'quick': 20, 'thorough': 400}[ctx.tier]):
